@@ -175,6 +175,14 @@ func cmdCheck(id, tier string) int {
 		if cfg.MaxTicks == 0 {
 			cfg.MaxTicks = 2
 		}
+		if ld.findFunc(h.Pkg, h.Func) == nil && len(ld.dropped) > 0 {
+			why := ""
+			for f, msg := range ld.dropped {
+				why += " " + filepath.Base(f) + ": " + msg + ";"
+			}
+			inconclusive = append(inconclusive, h.Name+": harness does not compile against this tree and was not run ("+strings.TrimSpace(why)+")")
+			continue
+		}
 		res, err := exploreHarness(ld, cfg, workers, cross)
 		if err != nil {
 			fmt.Fprintln(os.Stderr, "explore:", err)
